@@ -1,3 +1,5 @@
 #![allow(unused, clippy::all)]
 #[cfg(kani)]
 mod k_dtype;
+#[cfg(kani)]
+mod k_time;
